@@ -471,6 +471,8 @@ class Infer:
                     return self.elem_type_of(it.func.value, f)
                 if (isinstance(it, ast.Call) and dotted(it.func) == "enumerate" and idx == 1 and it.args):
                     return self.elem_type_of(it.args[0], f)
+                if isinstance(it, ast.Call) and dotted(it.func) == "enumerate" and idx == 0:
+                    return frozenset([("b", "int")])
                 return UNK
             if src[0] == "assign":
                 v = src[1]
@@ -911,6 +913,8 @@ class Infer:
         return out
 
     def _attr_type(self, e, scope):
+        if e.attr in ("__name__", "__qualname__", "__module__"):
+            return frozenset([("b", "str")])
         base = self.type_of(e.value, scope)
         out = set()
         for t in base:
